@@ -280,12 +280,16 @@ def configs(quick, maxb=None):
             combos = [()]
             for n in range(1, maxb + 1):
                 combos += list(itertools.combinations(range(len(menu)), n))
-            if quick and len(combos) > 400:
-                # all singletons and pairs that mix a memory binding with a functional one, plus a deterministic slice
-                keep = [c for c in combos if len(c) <= 1]
-                pairs = [c for c in combos if len(c) == 2]
-                keep += pairs[:: max(1, len(pairs) // 180)]
-                combos = keep
+            # quick: all singletons + a deterministic slice of the pairs; thorough: all singletons, ALL pairs and a
+            # deterministic slice of the triples (the full product of triples is ~5*10^5 configurations)
+            keep = [c for c in combos if len(c) <= 1]
+            pairs = [c for c in combos if len(c) == 2]
+            triples = [c for c in combos if len(c) == 3]
+            if quick:
+                keep += pairs[:: max(1, len(pairs) // 180)] if len(combos) > 400 else pairs
+            else:
+                keep += pairs + triples[:: max(1, len(triples) // 1200)]
+            combos = keep
             for c in combos:
                 labels = [menu[i][0] for i in c]
                 # two buffer bindings of the same tensor rank are (by the compiler's own rule) multiple bindings
